@@ -19,11 +19,15 @@ theorem casLoop_c0 {e : Ev} {c : Hp.St} {pc : Pc} {b : Bool} {cell : Nat} {a : I
     (h : casLoop e c pc b cell a onOk = .ok r) : (r.2.1.c0 = pc.c0 ∧ r.1 = c ∧ r.2.1.task = pc.task) ∨ r = onOk := by
   unfold casLoop at h
   split at h
-  · rw [guard_ok] at h; obtain ⟨_, h⟩ := h; cases h; exact .inl ⟨rfl, rfl, rfl⟩
-  · rw [guard_ok] at h; obtain ⟨_, h⟩ := h
-    split at h
-    · rw [guard_ok] at h; obtain ⟨_, h⟩ := h; cases h; exact .inr rfl
-    · rw [guard_ok] at h; obtain ⟨_, h⟩ := h; cases h; exact .inl ⟨rfl, rfl, rfl⟩
+  · unfold casLoad at h
+    rw [guard_ok] at h; obtain ⟨_, h⟩ := h; cases h; exact .inl ⟨rfl, rfl, rfl⟩
+  · split at h
+    · unfold casLoad at h
+      rw [guard_ok] at h; obtain ⟨_, h⟩ := h; cases h; exact .inl ⟨rfl, rfl, rfl⟩
+    · rw [guard_ok] at h; obtain ⟨_, h⟩ := h
+      split at h
+      · rw [guard_ok] at h; obtain ⟨_, h⟩ := h; cases h; exact .inr rfl
+      · rw [guard_ok] at h; obtain ⟨_, h⟩ := h; cases h; exact .inl ⟨rfl, rfl, rfl⟩
 
 theorem evStep_ghost {k : Nat} {c : Hp.St} {cuts : Cuts} {e : Ev} {pc : Pc} {c' : Hp.St} {pc' : Pc}
     {rv : Option String} {cuts' : Cuts}
